@@ -40,7 +40,10 @@ def render_standalone(prog, entry='kernel'):
     lines = F.render_unit(u, prog, ind=0)
     lines[1:1] = [f'  use iso_fortran_env, only: {KIND}', '  implicit none']
     text = '\n'.join(lines) + '\n'
-    return text.replace('kind=jprb', f'kind={KIND}').replace('_jprb', f'_{KIND}')
+    text = text.replace('kind=jprb', f'kind={KIND}').replace('_jprb', f'_{KIND}')
+    # lib_fm brackets a power that is the right operand of "/": x / (y**2).  Fortran's "**" binds tighter than "/", so
+    # the brackets are redundant; drop them (x / y**2) because back ends may treat the two spellings differently
+    return UNBRACKET.sub(r'/ \1**\2', text)
 
 
 def driver_for(prog, inputs, entry='kernel', wrapper=False):
@@ -73,8 +76,14 @@ def driver_for(prog, inputs, entry='kernel', wrapper=False):
 #     while, select, exitcycle, section   the statements of these names
 #     selneg    SELECT CASE with negative case values / ranges
 #     idxdiv    integer division inside array subscripts
+#     rpow      real ** 2|3 as numerator, factor and (unbracketed) DENOMINATOR of divisions; the divisors are powers of two
+#               (literals and the elements of the intent(in) array rp), so every result stays dyadic
+#     varstep   DO strides that are the integer input d (or -d, abs(d)); d takes positive and negative values at run time
 ALL_FEATURES = ('lb', 'step', 'lvafter', 'boundmod', 'idiv', 'mod', 'intfn', 'sign', 'ipow', 'fndiv', 'conv', 'intcast',
                 'while', 'select', 'exitcycle', 'section')
+
+
+UNBRACKET = re.compile(r'/ \(([A-Za-z_]\w*(?:\([^()]*\))?|\d+\.\d+_\w+)\*\*(\d)\)')
 
 
 class Retry(Exception):
@@ -292,10 +301,40 @@ class TGen(F.Gen):
             return op('sum', a, self.int_leaf())                      # mixed-mode arithmetic
         return call(rng.choice(['min', 'max']), a, self.real_leaf(False))
 
+    def pow2_leaf(self):
+        """Real leaf whose value is +-2**k (k in -1..2): dividing by it (or by its square / cube) is exact."""
+        return self.elem('rp') if self.rng.random() < 0.75 else self.rng.choice([R(2), R(1, 2), R(4)])
+
+    def rpow_expr(self):
+        rng = self.rng
+        self.used.add('rpow')
+        a, b, p = self.real_leaf(False), self.real_leaf(False), self.pow2_leaf()
+        k = rng.choice([2, 2, 2, 3])
+        form = rng.choice(['den', 'den', 'den', 'den_sum', 'den_prod', 'num', 'fac_l', 'fac_r', 'both', 'sumsq'])
+        if form in ('den', 'den_sum', 'den_prod', 'both'):
+            self.used.add('rpow_den')
+        if form == 'den':
+            return op('quot', a, op('pow', p, N(k)))                                     # a / p**2
+        if form == 'den_sum':
+            return op('sum', op('quot', a, op('pow', p, N(k))), b)                       # a / p**2 + b
+        if form == 'den_prod':
+            return op('quot', op('prod', a, rng.choice([R(2), R(1, 2), R(3, 2)])), op('pow', p, N(2)))   # a*c / p**2
+        if form == 'num':
+            return op('quot', op('pow', a, N(2)), rng.choice([R(2), R(4), self.pow2_leaf()]))             # a**2 / p
+        if form == 'fac_l':
+            return op('prod', op('pow', p, N(k)), a)                                     # p**2*a
+        if form == 'fac_r':
+            return op('prod', a, op('pow', p, N(k)))
+        if form == 'both':
+            return op('quot', op('pow', a, N(2)), op('pow', self.pow2_leaf(), N(2)))     # a**2 / p**2
+        return op('pow', op('par', op('sum', a, b)), N(2))                               # (a + b)**2
+
     def real_stmt(self):
         rng = self.rng
         tgt = V(rng.choice(self.real_writable)) if rng.random() < 0.6 else self.elem('ra')
         inloop = bool(self.active_loops)
+        if 'rpow' in self.f and rng.random() < 0.35:
+            return [assign(tgt, self.rpow_expr())]
         r = rng.random()
         if r < 0.3:
             rhs = op('sum', copy.deepcopy(tgt), self.real_fresh()) if rng.random() < 0.6 else op('sum', copy.deepcopy(tgt), op('neg', self.real_fresh()))
@@ -433,6 +472,8 @@ class TGen(F.Gen):
             shapes += ['stride'] * 8
         if 'boundmod' in f:
             shapes += ['boundmod'] * 8
+        if 'varstep' in f:
+            shapes += ['varstep'] * (10 if self.focus == 'varstep' else 5)
         shape = rng.choice(shapes)
         if shape == 'up':
             lo_e, hi_e = N(lo), N(hi)
@@ -460,6 +501,28 @@ class TGen(F.Gen):
             pairs = [(a, b) for a in range(lo, hi + 1) for b in range(lo, hi + 1) if b > a and (b - a) % abs(s) != 0]
             a, b = rng.choice(pairs)
             lo_e, hi_e, st = (N(a), N(b), N(s)) if s > 0 else (N(b), N(a), N(s))
+        elif shape == 'varstep':
+            # stride = the input d in {-2,-1,1,2} (or -d, abs(d)); the loop runs over the range of ia (extent 5)
+            self.used.add('varstep')
+            arr, dim = 'ia', 0
+            lo, hi = self.arrays['ia'][0]
+            mid = lo + 2
+            D = V('d')
+            form = rng.choice(['sym', 'sym', 'symneg', 'up', 'down', 'downneg', 'upneg', 'abs'])
+            if form == 'sym':        # 3 trips for either sign
+                lo_e, hi_e, st = op('sum', N(mid), op('neg', D)), op('sum', N(mid), D), D
+            elif form == 'symneg':   # 3 trips for either sign, stride spelled with a leading minus
+                lo_e, hi_e, st = op('sum', N(mid), D), op('sum', N(mid), op('neg', D)), op('neg', D)
+            elif form == 'up':       # trips iff d > 0
+                lo_e, hi_e, st = N(lo), N(hi), D
+            elif form == 'down':     # trips iff d < 0
+                lo_e, hi_e, st = N(hi), N(lo), D
+            elif form == 'downneg':  # trips iff d > 0
+                lo_e, hi_e, st = N(hi), N(lo), op('neg', D)
+            elif form == 'upneg':    # trips iff d < 0 (a positive stride spelled with a minus)
+                lo_e, hi_e, st = N(lo), N(hi), op('neg', D)
+            else:
+                lo_e, hi_e, st = N(lo), N(hi), call('abs', D)
         else:  # boundmod: the upper bound is a variable the body redefines
             self.used.add('boundmod')
             bv = rng.choice([x for x in ('t1', 't2') if x not in self.frozen] or ['t1'])
@@ -542,7 +605,8 @@ class TGen(F.Gen):
             c = rng.choice([0, 3, -1, 1])
         else:
             a = b1 = b2 = c = 1
-        self.arrays = {'ia': [(a, a + 4)], 'ra': [(c, c + 3)]}
+        c2 = rng.choice([0, 2, -1]) if 'lb' in self.f else 1
+        self.arrays = {'ia': [(a, a + 4)], 'ra': [(c, c + 3)], 'rp': [(c2, c2 + 3)]}
         if rng.random() < 0.6:
             self.arrays['ib'] = [(b1, b1 + 2), (b2, b2 + 2)]
         self.active_loops = []
@@ -550,13 +614,14 @@ class TGen(F.Gen):
         self.frozen = set()
         # pools that test an expression-level construct assign to dummies only, so that the construct reaches the outputs
         self.int_writable = ['k', 's'] if self.focus in ('idiv', 'mod', 'sign', 'intcast', 'fndiv', 'conv', 'idxdiv') else ['k', 't1', 't2', 's']
-        self.int_scalars = ['n', 'm', 'k', 't1', 't2', 's']
+        self.int_scalars = ['n', 'm', 'd', 'k', 't1', 't2', 's']
         self.int_scalars_noarr = list(self.int_scalars)
         self.real_scalars = ['x', 'y']
         self.real_writable = ['x', 'y']
-        decls = [decl('n', 'int', 'in'), decl('m', 'int', 'in'), decl('flag', 'log', 'in'),
-                 decl('ia', 'int', 'inout', self.arrays['ia']), decl('ra', 'real', 'inout', self.arrays['ra'])]
-        args = ['n', 'm', 'flag', 'ia', 'ra']
+        decls = [decl('n', 'int', 'in'), decl('m', 'int', 'in'), decl('d', 'int', 'in'), decl('flag', 'log', 'in'),
+                 decl('ia', 'int', 'inout', self.arrays['ia']), decl('ra', 'real', 'inout', self.arrays['ra']),
+                 decl('rp', 'real', 'in', self.arrays['rp'])]
+        args = ['n', 'm', 'd', 'flag', 'ia', 'ra', 'rp']
         if 'ib' in self.arrays:
             decls.append(decl('ib', 'int', 'inout', self.arrays['ib']))
             args.append('ib')
@@ -570,6 +635,7 @@ class TGen(F.Gen):
 
     def inputs(self, prog, count=3):
         rng = self.rng
+        self.dphase = rng.randrange(4)
         u = prog['units'][0]
         out = []
         for c in range(count):
@@ -581,11 +647,15 @@ class TGen(F.Gen):
                     size = 1
                     for lo, hi in d['dims']:
                         size *= hi - lo + 1
-                    if d['type'] == 'int':
+                    if d['name'] == 'rp':      # +-2**k: exact divisors
+                        els = [F.val_real(rng.choice([Fraction(1, 2), Fraction(1), Fraction(2), Fraction(-1, 2), Fraction(-1), Fraction(-2)])) for _ in range(size)]
+                    elif d['type'] == 'int':
                         els = [F.val_int(rng.randint(-4, 7)) for _ in range(size)]
                     else:
                         els = [F.val_real(Fraction(rng.randint(-6, 9), 2)) for _ in range(size)]
                     inp[d['name']] = F.val_arr(d['dims'], els)
+                elif d['name'] == 'd':         # stride input: never 0, both signs among the inputs of every program
+                    inp['d'] = F.val_int([[2, -1, 1], [-2, 1, -1], [1, -2, 2], [-1, 2, -2]][self.dphase][c % 3])
                 elif d['type'] == 'int':
                     inp[d['name']] = F.val_int([0, 1, 3, 5, -2, 2, -3, 4][(c * 3 + len(inp)) % 8] if rng.random() < 0.6 else rng.randint(-3, 6))
                 elif d['type'] == 'log':
@@ -628,7 +698,7 @@ def gen_cases(rng, pools, core, counts, ninputs=3):
             if pool == 'core':
                 prog = g.program(nstmts=rng.randint(3, 7), depth=2)
             else:
-                prog = g.program(nstmts=rng.randint(2, 4), depth=2 if pool in ('step', 'lvafter', 'boundmod', 'exitcycle', 'lb', 'select', 'selneg', 'idxdiv') else 1)
+                prog = g.program(nstmts=rng.randint(2, 4), depth=2 if pool in ('step', 'lvafter', 'boundmod', 'exitcycle', 'lb', 'select', 'selneg', 'idxdiv', 'varstep') else 1)
             cases.append({'prog': prog, 'inputs': g.inputs(prog, ninputs if pool == 'core' else 2), 'pool': pool})
     return cases
 
